@@ -17,11 +17,24 @@ from .c19 import run_tlc, parse_dump
 PROP = 'C20'
 
 URL = 'http://mock.invalid/data/file.bin'
-GOOD = bytes(bytearray((i * 7 + 3) % 251 for i in range(2700)))
-BAD = bytes(bytearray((i * 11 + 5) % 241 for i in range(2700)))
-OTHER = bytes(bytearray((i * 13 + 1) % 239 for i in range(1500)))
-MD5_GOOD = hashlib.md5(GOOD).hexdigest()
+GOOD = BAD = OTHER = MD5_GOOD = None
 MD5_WRONG = hashlib.md5(b'something else entirely').hexdigest()
+SIZES = {'small': 2700, 'large': 2 ** 20 + 4096}    # large: more than one read block of the hasher
+
+
+def set_bodies(size='small'):
+    """The served bodies: a few kB, or just above 1 MiB (files are hashed in blocks)."""
+    global GOOD, BAD, OTHER, MD5_GOOD
+    n = SIZES[size]
+    unit = bytes(bytearray((i * 7 + 3) % 251 for i in range(2700)))
+    GOOD = (unit * (n // 2700 + 1))[:n]
+    # the corrupted body differs from the good one only near its end
+    BAD = GOOD[:-7] + bytes(bytearray((b + 1) % 256 for b in GOOD[-7:]))
+    OTHER = GOOD[:n - 1200] if n > 3000 else bytes(bytearray((i * 13 + 1) % 239 for i in range(1500)))
+    MD5_GOOD = hashlib.md5(GOOD).hexdigest()
+
+
+set_bodies('small')
 
 DATA = ['good', 'corrupt', 'err']
 SUMS = ['correct', 'wrong', 'missing']
@@ -78,7 +91,7 @@ def run_download(prior, sum_mode, choices, data_script=None):
 
     def head_cb(request):
         log['head'] += 1
-        return (200, {'content-length': '2700'}, b'')
+        return (200, {'content-length': str(len(GOOD))}, b'')
 
     import io
     import contextlib
@@ -176,6 +189,7 @@ def scenario_key(prior, sum_mode, out):
 
 def run_direct(case, acc, order):
     prior, mode = case['prior'], case['sum']
+    set_bodies(case.get('body', 'small'))
     first = case.get('schedule')
 
     def run(ch):
@@ -224,6 +238,7 @@ def run_direct(case, acc, order):
                     PROP, 'direct', 'HARNESS/nondeterministic-replay', case=case, expected=out,
                     observed=out2), 0)
     case['_seen'] = [(scenario_key(prior, mode, o), sc) for sc, o in seen]
+    set_bodies('small')
     acc.extra['scenarios:%s:%s' % (prior, mode)] = len(set(k for k, _ in case['_seen']))
     if mode != 'per-request':
         acc.sample({'prior': prior, 'checksum': mode,
@@ -273,6 +288,7 @@ def run_model_path(case, acc, order):
     nondeterministic where the statement is silent, e.g. an existing file whose checksum is
     unavailable may be kept or downloaded again)."""
     t = case['path']
+    set_bodies('small')
     model_set = set(tuple(k) if not isinstance(k, tuple) else k for k in map(
         lambda k: (k[0], k[1], tuple(k[2]), k[3], k[4]), case['model_set']))
     out = run_download(t['prior'], t['sum'], None, data_script=t['data'])
@@ -309,8 +325,10 @@ def explore(ctx):
                        'per-request mode: "published" checksum = the last one the server answered']
     # direct exploration
     seen_const = {}
-    for mode_set, name in ((SUMS, 'direct-constant'), (['per-request'], 'direct-per-request')):
-        cases = [{'prior': p, 'sum': s} for p in PRIOR for s in mode_set]
+    for mode_set, name in ((SUMS, 'direct-constant'), (['per-request'], 'direct-per-request'),
+                           (SUMS, 'direct-constant-large')):
+        cases = [dict({'prior': p, 'sum': s}, **({'body': 'large'} if name.endswith('large') else {}))
+                 for p in PRIOR for s in mode_set]
         # run in-process (small) so that the explored scenario sets can be collected
         sub = core.Acc()
         for i, c in enumerate(cases):
@@ -351,7 +369,7 @@ def explore(ctx):
                                                          'is consumed when is implementation-specific')
             ctx.acc.states += info2['distinct']
     ctx.bounds = {'data_answers': DATA, 'checksum': SUMS + ['per-request'], 'prior': PRIOR,
-                  'body_bytes': len(GOOD)}
+                  'body_bytes': SIZES}
 
 
 def replay(record):
